@@ -450,7 +450,7 @@ func init() {
 	}
 	h.Register(&h.Monitor{
 		ID: "C11",
-		Rule: "exhaustive: every history of length 5 (quick) / 6 (thorough) over 12 operations {add p1..p4 (p2 duplicates p1, p3 on the root's vertical mid-line, p4 on the tree bound and a mid-line), add outside the bound, remove-by-point p1..p4, remove-by-identity of the 1st/2nd/3rd live handle (a stale handle when there are fewer)} from an empty tree, the full query battery and the structural walker after every operation; random: histories of 200..2000 operations over 64-point integer and 10000-point float alphabets with duplicate-heavy adds and removal bursts. " +
+		Rule: "exhaustive: every history of length 5 (quick) / 6 (thorough) over 12 operations {add p1..p4 (p2 duplicates p1, p3 on the root's vertical mid-line, p4 on the tree bound and a mid-line), add outside the bound, remove-by-point p1..p4, remove-by-identity of the 1st/2nd/3rd live handle (a stale handle when there are fewer)} from an empty tree, the full query battery and the structural walker after every operation; random: histories of 200..2000 operations over 64-point integer, 10000-point float and 96-point cell-mid-line (bounds with non-dyadic edges) alphabets with duplicate-heavy adds and removal bursts. " +
 			"non-trivial = every history (each contains at least one mutation step followed by queries); distinct = history index / hash of the operation list",
 		MinNontrivial: h.Fixed(100000, 1000000),
 		Assumptions: []string{
@@ -484,6 +484,42 @@ func init() {
 						for i := 0; i < 10000; i++ {
 							alpha = append(alpha, orb.Point{r.Uniform(-100, 100), r.Uniform(-50, 50)})
 						}
+					} else if r.P(1, 3) {
+						// a bound whose edges are not short binary fractions, and an alphabet of points exactly on the
+						// mid-lines of its cells down to depth 6 (computed as the mean of the cell's edges), so that stored
+						// points, query points and box edges coincide with cell boundaries to the last bit
+						b = []orb.Bound{
+							{Min: orb.Point{-1.8, -0.7}, Max: orb.Point{0.9, 2.3}},
+							{Min: orb.Point{0.1, 0.3}, Max: orb.Point{0.7, 1.1}},
+							{Min: orb.Point{-179.9, -85.05}, Max: orb.Point{179.9, 85.05}},
+							{Min: orb.Point{-20037508.34, -20037508.34}, Max: orb.Point{20037508.34, 20037508.34}},
+							{Min: orb.Point{1e-3, 1 / 3.0}, Max: orb.Point{3.3, math.Pi}},
+						}[r.Intn(5)]
+						var mids func(lo, hi float64, depth int, out *[]float64)
+						mids = func(lo, hi float64, depth int, out *[]float64) {
+							if depth == 0 {
+								return
+							}
+							mid := (lo + hi) / 2
+							*out = append(*out, mid)
+							mids(lo, mid, depth-1, out)
+							mids(mid, hi, depth-1, out)
+						}
+						var mx, my []float64
+						mids(b.Min[0], b.Max[0], 6, &mx)
+						mids(b.Min[1], b.Max[1], 6, &my)
+						mx, my = append(mx, b.Min[0], b.Max[0]), append(my, b.Min[1], b.Max[1])
+						for i := 0; i < 96; i++ {
+							p := orb.Point{mx[r.Intn(len(mx))], my[r.Intn(len(my))]}
+							switch r.Intn(4) {
+							case 0:
+								p[0] = r.Uniform(b.Min[0], b.Max[0])
+							case 1:
+								p[1] = r.Uniform(b.Min[1], b.Max[1])
+							}
+							alpha = append(alpha, p)
+						}
+						c.Count("histories_on_cell_midlines", 1)
 					} else {
 						for i := 0; i < 64; i++ {
 							p := orb.Point{float64(r.Range(0, 16)), float64(r.Range(0, 16))}
